@@ -14,6 +14,7 @@ import (
 
 // replayFile is what a VIOLATION line points at when a concretiser exists.
 type replayFile struct {
+	Mode       string            `json:"mode"` // "model": witness values of the solver's model made concrete; "search": failing input searched among small inputs
 	Property   string            `json:"property"`
 	Obligation string            `json:"obligation"`
 	Label      string            `json:"label"`
@@ -27,6 +28,14 @@ type replayFile struct {
 	Reproduced bool              `json:"reproduced"`
 }
 
+type searchResult struct {
+	reproduced bool
+	out        string
+}
+
+// searchDone: result of a search-mode concretiser per function, within one check run.
+var searchDone = map[string]searchResult{}
+
 func templateFor(fn string) string {
 	return filepath.Join(verifDir(), "replay", fileSafe(fn)+"_replay_test.go")
 }
@@ -36,14 +45,34 @@ func templateFor(fn string) string {
 // whether the failure was reproduced on the real code.
 func tryReplay(dir, prop string, o *Obligation) (string, bool) {
 	tmpl := templateFor(o.Fn)
-	if _, err := os.Stat(tmpl); err != nil || o.PkgDir == "" || len(o.Values) == 0 {
+	src, err := os.ReadFile(tmpl)
+	if err != nil || o.PkgDir == "" {
 		return "", false
+	}
+	// A concretiser marked "verif:search" does not need witness values: it looks for a failing
+	// input of the function among small inputs and checks the contract's postconditions restated
+	// in Go (used when the solver's model is over abstract objects or there is no model at all).
+	search := strings.Contains(string(src), "// verif:search")
+	if len(o.Values) == 0 && !search {
+		return "", false
+	}
+	if o.Values == nil {
+		o.Values = map[string]string{}
 	}
 	os.MkdirAll(dir, 0o755)
 	rf := &replayFile{Property: prop, Obligation: o.Name, Label: o.Label, Clause: o.Src, Function: o.Fn, PkgDir: o.PkgDir,
-		Template: tmpl, Values: o.Values, Solver: o.Solver}
+		Template: tmpl, Values: o.Values, Solver: o.Solver, Mode: map[bool]string{true: "search", false: "model"}[search]}
 	path := filepath.Join(dir, fileSafe(o.Name)+".replay.json")
-	reproduced, out := runReplay(rf, path)
+	var reproduced bool
+	var out string
+	if c, ok := searchDone[o.Fn]; ok && search && len(o.Values) == 0 {
+		reproduced, out = c.reproduced, c.out // the search does not depend on the obligation
+	} else {
+		reproduced, out = runReplay(rf, path)
+		if search && len(o.Values) == 0 {
+			searchDone[o.Fn] = searchResult{reproduced, out}
+		}
+	}
 	rf.Reproduced = reproduced
 	rf.Output = out
 	b, _ := json.MarshalIndent(rf, "", " ")
